@@ -169,7 +169,11 @@ class ORToolsSolver(BaseSolver):
             )
 
         sorted_schedule = [
-            sorted(scheduled_operation, key=lambda x: x.start_time)
+            # Operations with zero duration that start at the same time as
+            # another operation must be placed before it.
+            sorted(
+                scheduled_operation, key=lambda x: (x.start_time, x.end_time)
+            )
             for scheduled_operation in unsorted_schedule
         ]
 
